@@ -116,7 +116,9 @@ def check_long(chk, exes):
                 elif rc == 1 and (of[1] != "1" or of[2] != str(pos)): what = "long text: error code %s at position %s, expected the syntax code at %d" % (of[1], of[2], pos)
                 if what: chk.violation(what, {"request": rq[:100] + " ... (%d characters: %s...%s)" % (len(t), t[:12], t[-12:]), "build": fl, "impl": o[:200], "entry": e})
         # recomposition of the accepted ones
-        good = [t for t, rc, _ in cases if rc == 0]
+        # (the recording manager of the harness is quadratic in the number of blocks: paths of more than 5000 segments are recomposed
+        #  in the thorough tier only; the quick tier has them with 255 .. 1025 segments through the model-compared suites)
+        good = [t for t, rc, _ in cases if rc == 0 and (chk.tier != "quick" or t.count("/") <= 5000)]
         reqs = ["makeowner P " + enc([ord(c) for c in t]) for t in good]
         impl = lib.run_lines(exes[fl], reqs, chunks=min(lib.NCPU, len(reqs)))
         chk.cov["evaluations"] += len(reqs); n += len(reqs)
